@@ -137,6 +137,9 @@ class C10(Prop):
             "companion": gen.companion(),
             # connect() options that must not matter here
             "copts_noise": gen.copts_noise(),
+            "during": gen.weighted([(4, st.none()), (1, st.fixed_dictionaries({
+                "op": st.sampled_from(["getaddrinfo", "connect", "wrap", "recv"]), "n": st.integers(0, 1),
+                "do": st.sampled_from([["send_text", "too early"], ["send_binary", "00ff"], ["ping", "70"]])}))]),
         })
 
     def enumerations(self, tier):
@@ -209,6 +212,11 @@ class C10(Prop):
         scn = {"url": url, "attempts": [att, {"script": [["wait_request"], ["stream", [["reply", None]], "whole", 0.0],
                                                           ["eof", 0.0]]}],
                "ws_opts": ws_opts, "keys": keys}
+        if case.get("during"):
+            # another application thread calls a send method while the connecting thread is blocked in a system call:
+            # it is refused, and the upgrade request is still the first and only thing written before Ready
+            d = case["during"]
+            scn["io_reactions"] = [{"at": [d["op"], d["n"]], "do": [d["do"]]}]
         traces = simnet.run_chain(scn, 2 if case.get("key2") else 1)
         tr = traces[0]
         sim = tr.sim
